@@ -395,9 +395,11 @@ PLANS = {
                 "undefined-variable mode, operators, costs, options present / absent, stateless list): Compile of one of sixteen "
                 "sources (directive combinations: none, optimize:false, single optimizers off/on, later-overrides-earlier; "
                 "unknown names; stateless calls), CopyConfig / ExtendConf followed by mutation of every component of the copy "
-                "and an append to the source's stateless list, caller mutation; deep snapshot of the config before and after "
+                "and an append to the source's stateless list, caller mutation in place (options, another stateless list of the same length, "
+                "constants, costs), a TWIN (the same contents rebuilt from scratch, never compiled on) with the stateless-sensitive sources "
+                "compiled on the used config and on the twin, every program rendered again at the end of the history; deep snapshot of the config before and after "
                 "every call, program fingerprint = Dump + DumpTable + results; judged: snapshot unchanged by Compile, same "
-                "(contents, source) => same fingerprint across the whole history, mutating a copy never changes its source; "
+                "(contents, source) => same fingerprint across the whole history, mutating a copy never changes its source, no later step changes an already compiled program; "
                 "kind concurrent: 8 goroutines x 12 compilations on one shared config vs the sequential baseline, built with "
                 "-race (a race report with an access inside onheap/eval is a violation); kind conv: the convenience call "
                 "eval.Eval(src, vals) without options, 4 calls per source with the same names but the operator functions behind "
